@@ -40,8 +40,7 @@ class Script:
         self.nc = 0
 
     def uniform(self, low=0.0, high=1.0, size=None):
-        caller = sys._getframe(1).f_code.co_name
-        if caller in ('_initialize_terminals', '_initialize_agents'):
+        if self.content_draw(size):
             self.nc += 1
             n = 1 if size is None else int(np.prod(size))
             v = low + (high - low) * (((7 * self.nc + 3) % 16) / 16.0)
@@ -51,6 +50,21 @@ class Script:
         n, d = self.draws[self.nd]
         self.nd += 1
         return np.array([low + ((high - low) * n) / d], dtype=float)
+
+    @staticmethod
+    def content_draw(size):
+        """A draw that fills position arrays (contents are not part of C08/C09) as opposed to a draw that selects
+        a node / a point.  It is one iff it is made, through whatever helpers, on behalf of
+        _initialize_terminals / _initialize_agents (any frame between the call and this harness), or -- should
+        those entry points disappear -- from any `*initialize*` routine."""
+        f = sys._getframe(2)
+        here = __file__
+        while f is not None and f.f_code.co_filename != here:
+            name = f.f_code.co_name
+            if name in ('_initialize_terminals', '_initialize_agents') or 'initialize' in name:
+                return True
+            f = f.f_back
+        return False
 
     def choice(self, a, *args, **kw):
         if self.np_ >= len(self.picks):
